@@ -11,6 +11,7 @@ Three kinds of cases
   contract  the number-text contract on 20 000 random doubles and the white-space / line-break
         character classes of the model compared with CPython over every code point
 The model side is coq/Run/RunC03.v (extracted)."""
+import codecs
 import gzip
 import io
 import json
@@ -104,7 +105,7 @@ def run_rt(c):
             if c['mode'] in ('convert', 'cli'):
                 tmp = tempfile.mkdtemp(prefix='c03_')
             if c['mode'] == 'convert':
-                p = os.path.join(tmp, 't.tsv')
+                p = os.path.join(tmp, c.get('fname', 't.tsv'))
                 _convert(t, p, to_tsv=True, header_key=o['hk'], output_metadata_id=o['hv'],
                          tsv_metadata_formatter=fmt_name)
                 with open(p, encoding='utf-8', newline='') as fh:
@@ -142,15 +143,17 @@ def run_rt(c):
                 except Exception as e:
                     obs['second_import_same'] = 'failed: %s' % type(e).__name__
             elif mode == 'handle':
-                t2 = Table.from_tsv(io.StringIO(text), None, None, proc)
+                tmp = tmp or tempfile.mkdtemp(prefix='c03_')
+                t2 = import_handle(c, t, text, proc, tmp)
             elif mode in ('path', 'gz'):
                 tmp = tmp or tempfile.mkdtemp(prefix='c03_')
+                # the file NAME is independent of the real compression: the reader has to look at the content
                 if mode == 'path':
-                    p = os.path.join(tmp, 't.tsv')
+                    p = os.path.join(tmp, c.get('fname', 't.tsv'))
                     with open(p, 'w', encoding='utf-8', newline='') as fh:
                         fh.write(text)
                 else:
-                    p = os.path.join(tmp, 't.tsv.gz')
+                    p = os.path.join(tmp, c.get('fname', 't.tsv.gz'))
                     with gzip.open(p, 'wb') as fh:
                         fh.write(text.encode('utf-8'))
                 t2 = load_table(p)
@@ -158,9 +161,9 @@ def run_rt(c):
                     # the path loader applies the identity; the inverse processing is `biom convert`'s
                     t2 = reprocess(t2, c['process'], tmp)
             elif mode == 'convert':
-                t2 = reprocess(load_table(os.path.join(tmp, 't.tsv')), c['process'] if o['hk'] else None, tmp)
+                t2 = reprocess(load_table(os.path.join(tmp, c.get('fname', 't.tsv'))), c['process'] if o['hk'] else None, tmp)
             elif mode == 'cli':
-                t2 = cli_import(os.path.join(tmp, 't.tsv'), c, tmp)
+                t2 = cli_import(os.path.join(tmp, c.get('fname', 't.tsv')), c, tmp)
                 md = t2.metadata()
                 obs['extra'] = {'type': t2.type, 'smd': None if md is None else [tables.plain(dict(m)) for m in md],
                                 'file': c.pop('_written', None)}
@@ -174,6 +177,70 @@ def run_rt(c):
         c.pop('_written', None)
         if tmp:
             shutil.rmtree(tmp, ignore_errors=True)
+
+
+class DuckHandle:
+    """a reader that works by duck typing only (no io.IOBase in its ancestry)"""
+
+    def __init__(self, text):
+        self._f = io.StringIO(text)
+
+    def read(self, n=-1):
+        return self._f.read(n)
+
+    def readline(self):
+        return self._f.readline()
+
+    def seek(self, pos, whence=0):
+        return self._f.seek(pos, whence)
+
+    def tell(self):
+        return self._f.tell()
+
+    def __iter__(self):
+        return iter(self._f)
+
+
+def import_handle(c, t, text, proc, tmp):
+    """the text as a readable handle of one of several kinds, given to from_tsv / parse_biom_table / load_table"""
+    kind, api = c.get('hkind', 'stringio'), c.get('api', 'from_tsv')
+    o = c['opts']
+    closers = []
+    if kind == 'stringio':
+        h = io.StringIO(text)
+    elif kind == 'duck':
+        h = DuckHandle(text)
+    elif kind in ('namedtemp', 'namedtemp_direct'):
+        h = tempfile.NamedTemporaryFile('w+', encoding='utf-8', newline='', dir=tmp)
+        closers.append(h)
+        if kind == 'namedtemp':
+            h.write(text)
+        else:
+            t.to_tsv(header_key=o['hk'], header_value=o['hv'], metadata_formatter=FORMATTERS[o['fmt']],
+                     observation_column_name=o.get('ocn', '#OTU ID'), direct_io=h)
+        h.seek(0)
+    elif kind == 'spooled':
+        h = tempfile.SpooledTemporaryFile(max_size=1 << 20, mode='w+', encoding='utf-8', newline='')
+        closers.append(h)
+        h.write(text)
+        h.seek(0)
+    elif kind in ('codecs', 'file'):
+        p = os.path.join(tmp, 'h.tsv')
+        with open(p, 'w', encoding='utf-8', newline='') as fh:
+            fh.write(text)
+        h = codecs.open(p, encoding='utf-8') if kind == 'codecs' else open(p, encoding='utf-8')
+        closers.append(h)
+    else:
+        raise ValueError(kind)
+    try:
+        if api == 'parse_biom_table':
+            return parse_biom_table(h)
+        if api == 'load_table':
+            return load_table(h)
+        return Table.from_tsv(h, None, None, proc)
+    finally:
+        for x in closers:
+            x.close()
 
 
 def build_case(c):
@@ -230,7 +297,7 @@ def cli_export(t, c, tmp):
         import h5py
         with h5py.File(src, 'w') as fh:
             t.to_hdf5(fh, 'c03')
-    out = os.path.join(tmp, 't.tsv')
+    out = os.path.join(tmp, c.get('fname', 't.tsv'))
     args = ['convert', '-i', src, '-o', out, '--to-tsv', '--tsv-metadata-formatter', o['fmt']]
     if o['hk'] is not None:
         args += ['--header-key', o['hk'], '--output-metadata-id', o['hv']]
@@ -438,7 +505,10 @@ def encode(c):
            [] if omd is None else [[[[cps(k), md_tree(v)] for k, v in (e or {}).items()] for e in omd]]]
     ot = [[] if o['hk'] is None else [cps(o['hk'])], [] if o['hv'] is None else [cps(o['hv'])],
           0 if o['fmt'] == 'sc_separated' else 1, cps(o.get('ocn', '#OTU ID'))]
-    return [0, parse, fmt, tab, ot, 0 if c['process'] == 'naive' else 1, SPLITTER[c['mode']], KEEP[c['mode']]]
+    splitter = SPLITTER[c['mode']]
+    if c['mode'] == 'handle' and c.get('hkind', 'stringio') in ('namedtemp', 'namedtemp_direct', 'spooled', 'codecs', 'file'):
+        splitter = 1                  # a real text-mode file: universal newlines
+    return [0, parse, fmt, tab, ot, 0 if c['process'] == 'naive' else 1, splitter, KEEP[c['mode']]]
 
 
 def dec_table(t, b):
@@ -646,7 +716,7 @@ def gen_rt(rng, tier, promised_only=False):
     elif r < 0.5:
         # metadata present but not exported
         spec['omd'] = [{'taxonomy': rand_tax(rng)} for _ in range(n)]
-    modes = ['lines', 'lines', 'handle', 'path', 'gz', 'convert']
+    modes = ['lines', 'lines', 'handle', 'handle', 'path', 'gz', 'convert']
     mode = rng.choice(modes)
     c = {'kind': 'rt', 'spec': spec, 'opts': opts, 'process': process, 'mode': mode}
     zeros = [(i, j) for i, row in enumerate(spec['mat']) for j, v in enumerate(row) if v == 0]
@@ -655,12 +725,29 @@ def gen_rt(rng, tier, promised_only=False):
     if mode in ('lines', 'handle', 'path', 'gz') and rng.random() < 0.35:
         # observation_column_name: the corner cell of the header line (R / pandas write an empty one)
         opts['ocn'] = rng.choice(['', '', ' ', 'Taxon', 'x y', '#', ' #x', 'OTU ID', '#NAME'])
+    if mode == 'handle':
+        # handles of several classes; most are NOT io.IOBase subclasses and work by duck typing only
+        breaks = any(ch in i for i in spec['oids'] + spec['sids'] for ch in '\x0b\x0c\x1c\x1d\x1e\x85\u2028\u2029')
+        kinds = ['stringio', 'duck', 'namedtemp', 'namedtemp_direct', 'spooled', 'file'] + ([] if breaks else ['codecs'])
+        c['hkind'] = rng.choice(kinds)
+        apis = ['from_tsv']
+        if process == 'naive':
+            apis += ['parse_biom_table', 'parse_biom_table']
+            if c['hkind'] in ('stringio', 'file', 'spooled'):
+                apis.append('load_table')          # load_table takes io.IOBase handles, everything else is a path
+        c['api'] = rng.choice(apis)
+    if mode in ('path', 'convert'):
+        # plain text under any name, gzip under any name: the reader has to sniff the content
+        c['fname'] = rng.choice(['t.tsv', 't.tsv', 't.tsv.gz', 't.gz', 't.txt', 't'])
+    if mode == 'gz':
+        c['fname'] = rng.choice(['t.tsv.gz', 't.tsv.gz', 't.tsv', 't.gz', 't'])
     if mode in ('lines', 'handle') and rng.random() < 0.3:
         c['direct'] = True
     if c['mode'] not in ('lines', 'handle') and not promised(c):
         # e.g. a taxonomy made of numeric-looking names only: the file-based paths go through
         # `biom convert`, which refuses to process metadata that was read as a sample column
         c['mode'] = mode = rng.choice(['lines', 'handle'])
+        c.pop('fname', None)
     if promised_only or mode == 'convert' or rng.random() < 0.7:
         return c
     # ---- not-promised stream: the model must still agree with the code
@@ -708,6 +795,8 @@ def gen_rt(rng, tier, promised_only=False):
         c['opts'] = {'hk': 'taxonomy', 'hv': '', 'fmt': 'naive'}
     if c['mode'] not in ('lines', 'handle'):
         c['mode'] = rng.choice(['lines', 'handle'])
+    c['hkind'], c['api'] = 'stringio', 'from_tsv'
+    c.pop('fname', None)
     return c
 
 
@@ -789,6 +878,9 @@ def gen_cli(rng, tier, how):
     c.pop('direct', None)
     c['opts'].pop('ocn', None)        # the command has no option for the corner cell
     c['mode'] = 'cli'
+    c.pop('hkind', None)
+    c.pop('api', None)
+    c['fname'] = rng.choice(['t.tsv', 't.tsv', 't.tsv.gz', 't.gz', 't.txt', 't'])
     o, spec = c['opts'], c['spec']
     strings = o['hk'] is None or o['fmt'] == 'naive'
     all_plain_s = all(plain_id(i) for i in spec['sids'])
@@ -864,6 +956,10 @@ def classify(c):
     if all(v == 0 for row in spec['mat'] for v in row):
         tags.append('shape:all-zero')
     tags.append('md:' + ('none' if c['opts']['hk'] is None else c['opts']['fmt']))
+    if c['mode'] == 'handle':
+        tags.append('handle:%s/%s' % (c.get('hkind', 'stringio'), c.get('api', 'from_tsv')))
+    if c.get('fname'):
+        tags.append('name:%s%s' % ('gzip-as-' if c['mode'] == 'gz' else 'plain-as-', c['fname']))
     if 'ocn' in c['opts']:
         tags.append('corner-cell:' + ('#' if c['opts']['ocn'].startswith('#') else 'no-#'))
     if c['opts']['hk'] and c['opts']['fmt'] == 'sc_separated' and \
